@@ -52,7 +52,7 @@ git -C $REPO worktree remove --force "$wt" 2>/dev/null
 git -C $REPO worktree add -q --detach "$wt" HEAD || exit 2
 cleanup() { git -C $REPO worktree remove --force "$wt" 2>/dev/null; rm -rf "$wt"; }
 trap cleanup EXIT
-mkdir -p "$wt/_out"   # demonstrations may keep their scratch files there, as they did in the author's worktree
+mkdir -p "$wt/_out/m1" "$wt/_out/m2"   # demonstrations may keep their scratch files there, as they did in the author's worktree
 applies=true; demo_clean=-1; tests_ok=false; demo_patched=-1
 ( cd "$wt" && git apply --check "$sd/patch.diff" ) || applies=false
 if $applies; then
